@@ -151,6 +151,13 @@ class Feature(tuple, metaclass=abc.ABCMeta):
     def __hash__(self):
         return hash(self.__class__) ^ super().__hash__()
 
+    def __eq__(self, other: typing.Any) -> bool:
+        # same identity components as in the hash (operables redefine this using the pythonic comparison proxy)
+        return other.__class__ is self.__class__ and super().__eq__(other)
+
+    def __ne__(self, other: typing.Any) -> bool:
+        return not self == other
+
     @abc.abstractmethod
     def accept(self, visitor: 'dsl.Feature.Visitor') -> None:
         """Visitor acceptor.
@@ -303,9 +310,9 @@ class Operable(Feature, metaclass=abc.ABCMeta):
 
     __hash__ = Feature.__hash__  # otherwise gets overwritten to None due to redefined __eq__
 
-    @featurize
-    def __eq__(self, other: 'dsl.Operable') -> 'Equal':
-        return Comparison.Pythonic(Equal, self, other)
+    def __eq__(self, other: 'dsl.Feature') -> 'Equal':
+        # keeping the other feature as is (ie aliased) so the pythonic identity can tell the difference
+        return Comparison.Pythonic(Equal, self, cast(other))
 
     @featurize
     def __ne__(self, other: 'dsl.Operable') -> 'NotEqual':
@@ -811,7 +818,7 @@ class Comparison(Predicate):
             Returns:
                 Comparison instance.
             """
-            return self.operator(self.left, self.right)
+            return self.operator(self.left.operable, self.right.operable)
 
     def __init__(self, *operands: 'dsl.Operable'):
         operands = [Operable.ensure_is(o) for o in operands]
